@@ -190,50 +190,10 @@ func (v *Version) Compare(other *Version) int {
 // This implements the Arch Linux vercmp algorithm based on the precedence:
 // 1.0a < 1.0b < 1.0beta < 1.0p < 1.0pre < 1.0rc < 1.0 < 1.0.a < 1.0.1
 func compareALMPVersionString(a, b string) int {
-	// Handle the specific documented precedence cases first
 	if a == b {
 		return 0
 	}
-
-	// Check if this is a direct suffix comparison (no dots separating)
-	if isDirectSuffixComparison(a, b) {
-		return compareDirectSuffixes(a, b)
-	}
-
-	// Otherwise use standard segment-by-segment comparison
 	return compareSegmentBySegment(a, b)
-}
-
-// isDirectSuffixComparison checks if we're comparing like "1.0" vs "1.0rc"
-func isDirectSuffixComparison(a, b string) bool {
-	// Simple heuristic: if one is a prefix of the other without separators
-	if len(a) < len(b) && b[:len(a)] == a {
-		// Check if remainder is alpha (no separators)
-		remainder := b[len(a):]
-		return len(remainder) > 0 && unicode.IsLetter(rune(remainder[0])) &&
-			!strings.ContainsAny(remainder[:1], ".+-_")
-	}
-	if len(b) < len(a) && a[:len(b)] == b {
-		// Check if remainder is alpha (no separators)
-		remainder := a[len(b):]
-		return len(remainder) > 0 && unicode.IsLetter(rune(remainder[0])) &&
-			!strings.ContainsAny(remainder[:1], ".+-_")
-	}
-	return false
-}
-
-// compareDirectSuffixes handles cases like "1.0" vs "1.0rc"
-func compareDirectSuffixes(a, b string) int {
-	if len(a) < len(b) && b[:len(a)] == a {
-		// a is prefix of b, b has direct suffix -> a wins (1.0 > 1.0rc)
-		return 1
-	}
-	if len(b) < len(a) && a[:len(b)] == b {
-		// b is prefix of a, a has direct suffix -> b wins
-		return -1
-	}
-	// Both have suffixes, compare lexicographically
-	return strings.Compare(a, b)
 }
 
 // compareSegmentBySegment does standard version segment comparison
@@ -268,10 +228,19 @@ func compareSegmentBySegment(a, b string) int {
 		if aMissing && bMissing {
 			continue // both missing, equal
 		}
+		// vercmp's final rule: when one version runs out, a remaining alpha
+		// segment makes the other version older (1.0 > 1.0rc); anything else
+		// makes it newer (1.0 < 1.0.a, 1.0 < 1.0.1).
 		if aMissing {
+			if isAlphaSegment(bSeg) {
+				return 1
+			}
 			return -1 // missing < present (even if empty)
 		}
 		if bMissing {
+			if isAlphaSegment(aSeg) {
+				return -1
+			}
 			return 1 // present (even if empty) > missing
 		}
 
@@ -283,6 +252,11 @@ func compareSegmentBySegment(a, b string) int {
 	}
 
 	return 0
+}
+
+// isAlphaSegment reports whether a segment is a non-empty alphabetic segment
+func isAlphaSegment(seg string) bool {
+	return seg != "" && !unicode.IsDigit(rune(seg[0]))
 }
 
 // splitToSegments splits a version string into segments following vercmp rules
